@@ -27,6 +27,7 @@ import (
 //	  req = <genl cmd>/<nlmsg type>/<nlmsg flags hex>/<attribute bytes hex|->
 //
 // child tokens (in IE order), see DESIGN.md §5.3:
+//
 //	PDR  pdrid:N prec:N ohr:N farid:N qerid:N urrid:N pdi(srcif:N;fteid:TEID/IP;ueip:IP;sdf:FDHEX/BID;netinst;appid)
 //	FAR  farid:N aa:HEX barid:N fp(dstif:N;ohc:DESC/TEID/IP/PORT;fpol:HEX;smreq:N;netinst)   (ufp(...) in Update FAR)
 //	QER  qerid:N corr:N gate:N mbr:UL/DL gbr:UL/DL qfi:N rqi:N ppi:N
@@ -44,7 +45,7 @@ type drvEnv struct {
 
 type nullHandler struct{}
 
-func (nullHandler) NotifySessReport(report.SessReport)        {}
+func (nullHandler) NotifySessReport(report.SessReport)      {}
 func (nullHandler) PopBufPkt(uint64, uint16) ([]byte, bool) { return nil, false }
 
 func newDrvEnv() *drvEnv {
@@ -107,7 +108,9 @@ func joinToks(xs []tokIE, sep string) (string, []*ie.IE) {
 	return strings.Join(ts, sep), is
 }
 
-func ip4(r *rng) net.IP { return net.IPv4(byte(r.bits(8)), byte(r.bits(8)), byte(r.bits(8)), byte(r.bits(8))).To4() }
+func ip4(r *rng) net.IP {
+	return net.IPv4(byte(r.bits(8)), byte(r.bits(8)), byte(r.bits(8)), byte(r.bits(8))).To4()
+}
 
 func (g *fdGen) validRule() string {
 	r := g.r
@@ -432,69 +435,78 @@ func runDrv(c *ctx) {
 			op = "update"
 		}
 		c.count(kind + "." + op)
-		// a fresh kernel table for every operation; an Update finds the rule it addresses (created quietly with its id only)
-		e.k.mu.Lock()
-		e.k.objs = map[string][]simAttr{}
-		e.k.mu.Unlock()
-		if update {
-			idTok := ch[0]
-			for _, x := range ch {
-				if strings.HasPrefix(x.tok, kind+"id:") {
-					idTok = x
-				}
-			}
-			switch kind {
-			case "pdr":
-				e.g.CreatePDR(seid, ie.NewCreatePDR(idTok.ie))
-			case "far":
-				e.g.CreateFAR(seid, ie.NewCreateFAR(idTok.ie))
-			case "qer":
-				e.g.CreateQER(seid, ie.NewCreateQER(idTok.ie))
-			case "urr":
-				e.g.CreateURR(seid, ie.NewCreateURR(idTok.ie))
-			case "bar":
-				e.g.CreateBAR(seid, ie.NewCreateBAR(idTok.ie))
-			}
-			e.reqs()
+		// the translation of a rule is a function of the rule alone: now and then the same IE is handed over a second time
+		// (and must come out the same — nothing of an earlier translation may leak into a later one)
+		reps := 1
+		if r.chance(25) {
+			reps = 2
+			c.count("repeat")
 		}
-		res := guard(func() string {
-			var err error
-			switch kind + "." + op {
-			case "pdr.create":
-				err = e.g.CreatePDR(seid, ie.NewCreatePDR(ies...))
-			case "pdr.update":
-				err = e.g.UpdatePDR(seid, ie.NewUpdatePDR(ies...))
-			case "far.create":
-				err = e.g.CreateFAR(seid, ie.NewCreateFAR(ies...))
-			case "far.update":
-				err = e.g.UpdateFAR(seid, ie.NewUpdateFAR(ies...))
-			case "qer.create":
-				err = e.g.CreateQER(seid, ie.NewCreateQER(ies...))
-			case "qer.update":
-				err = e.g.UpdateQER(seid, ie.NewUpdateQER(ies...))
-			case "urr.create":
-				err = e.g.CreateURR(seid, ie.NewCreateURR(ies...))
-			case "urr.update":
-				_, err = e.g.UpdateURR(seid, ie.NewUpdateURR(ies...))
-			case "bar.create":
-				err = e.g.CreateBAR(seid, ie.NewCreateBAR(ies...))
-			case "bar.update":
-				err = e.g.UpdateBAR(seid, ie.NewUpdateBARWithinSessionModificationRequest(ies...))
-			}
-			return resStr(err)
-		})
-		line := fmt.Sprintf("T drv.%s.%s %x %s = %s %s", kind, op, seid, toks, res, e.reqs())
-		if kind == "urr" {
-			line += " perio=" + perioOf()
-			// unregister again (Remove URR always unregisters), so that the groups of the next line start empty
-			for _, x := range ch {
-				if strings.HasPrefix(x.tok, "urrid:") {
-					e.g.RemoveURR(seid, ie.NewRemoveURR(x.ie))
+		for rep := 0; rep < reps; rep++ {
+			// a fresh kernel table for every operation; an Update finds the rule it addresses (created quietly with its id only)
+			e.k.mu.Lock()
+			e.k.objs = map[string][]simAttr{}
+			e.k.mu.Unlock()
+			if update {
+				idTok := ch[0]
+				for _, x := range ch {
+					if strings.HasPrefix(x.tok, kind+"id:") {
+						idTok = x
+					}
 				}
+				switch kind {
+				case "pdr":
+					e.g.CreatePDR(seid, ie.NewCreatePDR(idTok.ie))
+				case "far":
+					e.g.CreateFAR(seid, ie.NewCreateFAR(idTok.ie))
+				case "qer":
+					e.g.CreateQER(seid, ie.NewCreateQER(idTok.ie))
+				case "urr":
+					e.g.CreateURR(seid, ie.NewCreateURR(idTok.ie))
+				case "bar":
+					e.g.CreateBAR(seid, ie.NewCreateBAR(idTok.ie))
+				}
+				e.reqs()
 			}
-			perioOf()
-			e.reqs()
+			res := guard(func() string {
+				var err error
+				switch kind + "." + op {
+				case "pdr.create":
+					err = e.g.CreatePDR(seid, ie.NewCreatePDR(ies...))
+				case "pdr.update":
+					err = e.g.UpdatePDR(seid, ie.NewUpdatePDR(ies...))
+				case "far.create":
+					err = e.g.CreateFAR(seid, ie.NewCreateFAR(ies...))
+				case "far.update":
+					err = e.g.UpdateFAR(seid, ie.NewUpdateFAR(ies...))
+				case "qer.create":
+					err = e.g.CreateQER(seid, ie.NewCreateQER(ies...))
+				case "qer.update":
+					err = e.g.UpdateQER(seid, ie.NewUpdateQER(ies...))
+				case "urr.create":
+					err = e.g.CreateURR(seid, ie.NewCreateURR(ies...))
+				case "urr.update":
+					_, err = e.g.UpdateURR(seid, ie.NewUpdateURR(ies...))
+				case "bar.create":
+					err = e.g.CreateBAR(seid, ie.NewCreateBAR(ies...))
+				case "bar.update":
+					err = e.g.UpdateBAR(seid, ie.NewUpdateBARWithinSessionModificationRequest(ies...))
+				}
+				return resStr(err)
+			})
+			line := fmt.Sprintf("T drv.%s.%s %x %s = %s %s", kind, op, seid, toks, res, e.reqs())
+			if kind == "urr" {
+				line += " perio=" + perioOf()
+				// unregister again (Remove URR always unregisters), so that the groups of the next line start empty
+				for _, x := range ch {
+					if strings.HasPrefix(x.tok, "urrid:") {
+						e.g.RemoveURR(seid, ie.NewRemoveURR(x.ie))
+					}
+				}
+				perioOf()
+				e.reqs()
+			}
+			c.emit("%s", line)
 		}
-		c.emit("%s", line)
 	}
 }
